@@ -608,3 +608,117 @@ Proof.
 Qed.
 
 (* non-vacuity: the old one-level check violates the same statement *)
+
+(* ------------------------------------------------------------------ *)
+(** * Where rewired elements come from, and how many there are *)
+Lemma skipn_In {A} n : forall (l : list A) x, In x (skipn n l) -> In x l.
+Proof.
+  induction n as [|n IH]; intros l x H; [exact H|]. destruct l; [destruct H|]. right. apply IH, H.
+Qed.
+
+Section RewireIncl.
+  Variables (A : Type) (z : A).
+
+  Lemma lastd_in (l : list A) : l <> [] -> In (lastd A z l) l.
+  Proof.
+    unfold lastd. induction l as [|x t IH]; [congruence|]. intros _.
+    destruct t; [left; reflexivity|]. right. apply IH. discriminate.
+  Qed.
+
+  Lemma in_nth_ins (ins : list (list A)) j x : In x (nth j ins []) -> exists w, In w ins /\ In x w.
+  Proof.
+    intros H. destruct (Nat.lt_ge_cases j (length ins)) as [L|L].
+    - exists (nth j ins []). split; [apply nth_In, L | exact H].
+    - rewrite nth_overflow in H by exact L. destruct H.
+  Qed.
+
+  Lemma pad_operand_incl sg bits w x : In x (pad_operand A z sg bits w) -> x = z \/ In x w.
+  Proof.
+    unfold pad_operand. destruct (Nat.eqb (length w) bits); [auto|].
+    intros H. apply in_map_iff in H as (bit & <- & _).
+    destruct (bit <? length w) eqn:E; [right; apply nth_In, Nat.ltb_lt, E|].
+    destruct sg; simpl; [|auto]. destruct (Nat.eqb (length w) 0) eqn:E0; simpl; [auto|].
+    right. apply lastd_in. intros ->. discriminate.
+  Qed.
+
+  Lemma pad_operand_length sg bits w : length (pad_operand A z sg bits w) = bits.
+  Proof.
+    unfold pad_operand. destruct (Nat.eqb (length w) bits) eqn:E; [apply Nat.eqb_eq, E|].
+    rewrite map_length, seq_length. reflexivity.
+  Qed.
+
+  Ltac pick_nth H :=
+    match type of H with
+    | (if ?c then _ else _) = _ => destruct c eqn:?E
+    end.
+
+  Lemma alias_ids_incl o ins cs old obits r :
+    alias_ids A z o ins cs old obits = Some r ->
+    forall x, In x r -> x = z \/ In x old \/ exists w, In w ins /\ In x w.
+  Proof.
+    unfold alias_ids. intros H x Hx.
+    assert (N0 : forall k, k < length (nth 0 ins []) -> exists w, In w ins /\ In (nth k (nth 0 ins []) z) w)
+      by (intros k Hk; apply (in_nth_ins ins 0), nth_In, Hk).
+    assert (N1 : forall k, k < length (nth 1 ins []) -> exists w, In w ins /\ In (nth k (nth 1 ins []) z) w)
+      by (intros k Hk; apply (in_nth_ins ins 1), nth_In, Hk).
+    destruct o; try discriminate.
+    - (* Concat *)
+      destruct (_ <=? _) eqn:G; [|discriminate]. injection H as <-. apply Nat.leb_le in G.
+      apply in_map_iff in Hx as (bit & <- & Hb). apply in_seq in Hb.
+      destruct (bit <? length (nth 0 ins [])) eqn:E.
+      + right. right. apply N0, Nat.ltb_lt, E.
+      + apply Nat.ltb_ge in E. right. right. apply N1. lia.
+    - destruct (_ <? _)%Z; [discriminate|]. injection H as <-.
+      apply in_map_iff in Hx as (bit & <- & _).
+      destruct (_ && _) eqn:E; [|auto]. apply andb_prop in E as [_ E]. right. right. apply N0, Nat.ltb_lt, E.
+    - destruct (_ <? _)%Z; [discriminate|]. injection H as <-.
+      apply in_map_iff in Hx as (bit & <- & _).
+      destruct (_ <? _) eqn:E; [|auto]. right. right. apply N0, Nat.ltb_lt, E.
+    - destruct (_ <? _)%Z; [discriminate|].
+      destruct (nth 0 ins []) as [|a t] eqn:E0; [discriminate|]. rewrite <- E0 in H, N0. injection H as <-.
+      apply in_map_iff in Hx as (bit & <- & _).
+      destruct (_ <? _) eqn:E; [right; right; apply N0, Nat.ltb_lt, E|].
+      right. right. apply (in_nth_ins ins 0). apply lastd_in. rewrite E0. discriminate.
+    - destruct (_ || _); [discriminate|]. destruct (length old <? _); [discriminate|]. injection H as <-.
+      apply in_app_or in Hx as [Hx|Hx].
+      + apply in_map_iff in Hx as (k & <- & _). destruct (_ <? _) eqn:E; [|auto].
+        right. right. apply N0, Nat.ltb_lt, E.
+      + right. left. eapply skipn_In; eauto.
+    - destruct (length old <? obits); [discriminate|]. injection H as <-.
+      apply in_app_or in Hx as [Hx|Hx].
+      + apply in_map_iff in Hx as (k & <- & _). destruct (_ <? _) eqn:E; [|auto].
+        right. right. apply N0, Nat.ltb_lt, E.
+      + right. left. eapply skipn_In; eauto.
+    - destruct (nth 0 ins []) as [|a t] eqn:E0; [discriminate|].
+      rewrite <- E0 in H, N0.
+      destruct (length old <? obits); [discriminate|]. injection H as <-.
+      apply in_app_or in Hx as [Hx|Hx].
+      + apply in_map_iff in Hx as (k & <- & _). destruct (_ <? _) eqn:E; [right; right; apply N0, Nat.ltb_lt, E|].
+        right. right. apply (in_nth_ins ins 0). apply lastd_in. rewrite E0. discriminate.
+      + right. left. eapply skipn_In; eauto.
+    - destruct (_ || _); [discriminate|]. destruct (length old <? obits); [discriminate|]. injection H as <-.
+      apply in_app_or in Hx as [Hx|Hx].
+      + apply in_map_iff in Hx as (k & <- & _).
+        destruct (_ || _); destruct (_ <? _) eqn:E; auto; right; right; [apply N1 | apply N0]; apply Nat.ltb_lt, E.
+      + right. left. eapply skipn_In; eauto.
+  Qed.
+
+  Lemma alias_ids_length o ins cs old obits r :
+    alias_ids A z o ins cs old obits = Some r -> length r = length old.
+  Proof.
+    unfold alias_ids. intros H. destruct o; try discriminate.
+    - destruct (_ <=? _); [|discriminate]. injection H as <-. rewrite map_length, seq_length. reflexivity.
+    - destruct (_ <? _)%Z; [discriminate|]. injection H as <-. rewrite map_length, seq_length. reflexivity.
+    - destruct (_ <? _)%Z; [discriminate|]. injection H as <-. rewrite map_length, seq_length. reflexivity.
+    - destruct (_ <? _)%Z; [discriminate|]. destruct (nth 0 ins []); [discriminate|]. injection H as <-.
+      rewrite map_length, seq_length. reflexivity.
+    - destruct (_ || _); [discriminate|]. destruct (length old <? _) eqn:E; [discriminate|]. injection H as <-.
+      apply Nat.ltb_ge in E. rewrite app_length, map_length, seq_length, skipn_length. lia.
+    - destruct (length old <? obits) eqn:E; [discriminate|]. injection H as <-.
+      apply Nat.ltb_ge in E. rewrite app_length, map_length, seq_length, skipn_length. lia.
+    - destruct (nth 0 ins []); [discriminate|]. destruct (length old <? obits) eqn:E; [discriminate|]. injection H as <-.
+      apply Nat.ltb_ge in E. rewrite app_length, map_length, seq_length, skipn_length. lia.
+    - destruct (_ || _); [discriminate|]. destruct (length old <? obits) eqn:E; [discriminate|]. injection H as <-.
+      apply Nat.ltb_ge in E. rewrite app_length, map_length, seq_length, skipn_length. lia.
+  Qed.
+End RewireIncl.
